@@ -182,10 +182,19 @@ def observe_and_judge(rep, cases, label, corrupt=None):
 
 
 def select_cases(tier, cases, rng):
+    twin = [c for c in cases if c["feat"]["k"] == "twin"]
+    cases = [c for c in cases if c["feat"]["k"] != "twin"]
     ok = [c for c in cases if c["must_error"] == 0]
     err = [c for c in cases if c["must_error"] == 1]
     out = []
     k = 0
+    # the twin graphs (same literal, sibling directories): always, under every configuration, with and without extension
+    for c in twin:
+        for cfg in [(m, g, r) for m in MODES for g in GENERATORS for r in (0, 1)]:
+            for sp0 in (0, 1):
+                d = decorate(c, k, rng, cfg)
+                d["sp0"] = sp0
+                out.append(d); k += 1
     if tier == "quick":
         for c in rng.sample(ok, 1000):                 # a seeded sample of the non-error graphs, random configuration
             out.append(decorate(c, k, rng)); k += 1
@@ -258,7 +267,7 @@ def run(tier):
         "behaviour = sequence of external calls with rendered arguments (counters per module, rawequal of values received by different requirers, results of exported closures, identically named locals) + returned values, judged by LuaEquiv over spec/lua/LuaSem.tla; the model `require` runs a module body once in a fresh scope and caches its value, two spellings of one file are one module",
         "excluded modules and computed require arguments are served by the run-time `require` in both programs; an excluded module requires nothing itself (it would otherwise load private copies of bundled modules, which is inherent to excluding)",
         "error cases are never executed: the observation is `process` returning / collecting an error that names the files (path of an existing file, requested name of a missing one), within 20 s, without panic",
-        "in-memory resources; all modules live in one directory (plus one sub-directory), so that every literal require string denotes one file; .luaurc aliases, sourcemaps and the roblox mode are outside the property",
+        "in-memory resources; modules live in one directory (plus one sub-directory) where every literal require string denotes one file, except in the TWIN graphs (1->2, 1->3, 2->4, 3->5): files 2 and 3 live in sibling directories and write the SAME literal `./c` / `../c`, which denotes a different file for each (or nothing for the second); .luaurc aliases, sourcemaps and the roblox mode are outside the property",
         "type declarations exported by modules (rename_type_declaration.rs) are not generated",
     ]
     return rep.finish()
